@@ -1,11 +1,27 @@
 package main
 
+import (
+	"fmt"
+	"go/ast"
+	"go/token"
+	"regexp"
+	"sort"
+	"strconv"
+	"strings"
+)
+
+// C20: the constants and tables the Lean model of the access logger silently depends on, and the
+// call-shape facts behind "time fields are rendered in UTC", "Response is never nil", "the renderers only
+// read the event".
 func init() {
 	register("C20", func(x *X) error {
-		// the table of log fields
+		// ---- logger: the table of log fields, the documented list, the format constants ----
+		var fieldsLit *ast.CompositeLit
 		if e := x.valueSpec("logger", "fields"); e != nil {
 			x.defSortedStrList("fieldNames", x.mapKeys(e))
+			fieldsLit, _ = e.(*ast.CompositeLit)
 		}
+		x.defStrList("docFields", c20DocFields(x))
 		for _, c := range []string{"CommonFormat", "CombinedFormat"} {
 			if e := x.valueSpec("logger", c); e != nil {
 				if s, ok := x.strLit(e); ok {
@@ -15,6 +31,385 @@ func init() {
 				}
 			}
 		}
+		if e := x.valueSpec("logger", "shortMonthNames"); e != nil {
+			x.defStrList("shortMonthNames", c20StrElems(x, e))
+		}
+
+		// ---- atoi: scratch array size and the pad arguments at its call sites ----
+		if fd := x.funcDecl("logger", "", "atoi"); fd != nil {
+			x.defNat("atoiBufLen", c20ArrayLen(x, fd, "d"))
+		}
+		pads := map[uint64]bool{}
+		for _, f := range x.files("logger") {
+			for _, c := range x.calls(f, "atoi") {
+				if len(c.Args) != 3 {
+					x.fail("atoi call with %d arguments", len(c.Args))
+					continue
+				}
+				lit, ok := c.Args[2].(*ast.BasicLit)
+				if !ok || lit.Kind != token.INT {
+					x.fail("atoi pad argument is not an integer literal: %s", x.src(c))
+					continue
+				}
+				v, _ := strconv.ParseUint(lit.Value, 0, 64)
+				pads[v] = true
+			}
+		}
+		var padList []uint64
+		for p := range pads {
+			padList = append(padList, p)
+		}
+		sort.Slice(padList, func(i, j int) bool { return padList[i] < padList[j] })
+		x.defRaw("def atoiPads : List Nat := " + c20NatList(padList))
+
+		// ---- the field functions: where the calendar fields come from; writes to the event ----
+		calendar := map[string]bool{"Year": true, "Month": true, "Day": true, "Hour": true, "Minute": true, "Second": true, "Nanosecond": true}
+		var counts []string
+		var notUTC, eventWrites, endUses []string
+		if fieldsLit != nil {
+			for _, el := range fieldsLit.Elts {
+				kv, ok := el.(*ast.KeyValueExpr)
+				if !ok {
+					continue
+				}
+				name, _ := x.strLit(kv.Key)
+				fn, ok := kv.Value.(*ast.FuncLit)
+				if !ok {
+					x.fail("field %s is not a function literal", name)
+					continue
+				}
+				// local variables bound to e.End.UTC()
+				utcVars := map[string]bool{}
+				ast.Inspect(fn, func(n ast.Node) bool {
+					if as, ok := n.(*ast.AssignStmt); ok && len(as.Lhs) == 1 && len(as.Rhs) == 1 {
+						if id, ok := as.Lhs[0].(*ast.Ident); ok {
+							if x.src(as.Rhs[0]) == "e.End.UTC()" {
+								utcVars[id.Name] = true
+							} else {
+								delete(utcVars, id.Name)
+							}
+						}
+					}
+					return true
+				})
+				n := 0
+				ast.Inspect(fn, func(nd ast.Node) bool {
+					switch v := nd.(type) {
+					case *ast.CallExpr:
+						if sel, ok := v.Fun.(*ast.SelectorExpr); ok {
+							recv := x.src(sel.X)
+							if calendar[sel.Sel.Name] {
+								n++
+								id, isID := sel.X.(*ast.Ident)
+								if !(recv == "e.End.UTC()" || (isID && utcVars[id.Name])) {
+									notUTC = append(notUTC, name+": "+x.src(v))
+								}
+							}
+							if recv == "e.End" {
+								endUses = append(endUses, sel.Sel.Name)
+							}
+						}
+					case *ast.AssignStmt:
+						for _, l := range v.Lhs {
+							if c20RootedAt(l, "e") {
+								eventWrites = append(eventWrites, name+": "+x.src(v))
+							}
+						}
+					case *ast.IncDecStmt:
+						if c20RootedAt(v.X, "e") {
+							eventWrites = append(eventWrites, name+": "+x.src(v))
+						}
+					}
+					return true
+				})
+				if strings.HasPrefix(name, "$time_") && !strings.HasPrefix(name, "$time_unix") {
+					counts = append(counts, fmt.Sprintf("(%s, %d)", leanStr(name), n))
+				} else if n > 0 {
+					notUTC = append(notUTC, name+": calendar accessor outside the time fields")
+				}
+			}
+		}
+		sort.Strings(counts)
+		x.defRaw("/-- per wall-clock time field: number of calendar accessor calls (Year … Nanosecond) in its renderer -/\ndef timeFieldAccessorCalls : List (String × Nat) := [" + strings.Join(counts, ", ") + "]")
+		x.defStrList("calendarAccessorsNotOnUTC", notUTC)
+		sort.Strings(endUses)
+		x.defStrList("methodsCalledOnEnd", c20Uniq(endUses))
+		x.defStrList("rendererWritesToEvent", eventWrites)
+
+		// pattern.write: the early return on an empty buffer (D26) and the single newline
+		if fd := x.funcDecl("logger", "pattern", "write"); fd != nil {
+			skip := false
+			nl := 0
+			ast.Inspect(fd, func(n ast.Node) bool {
+				if is, ok := n.(*ast.IfStmt); ok && x.src(is.Cond) == "b.Len() == 0" && len(is.Body.List) == 1 {
+					if _, ok := is.Body.List[0].(*ast.ReturnStmt); ok {
+						skip = true
+					}
+				}
+				if c, ok := n.(*ast.CallExpr); ok && x.src(c) == `b.WriteRune('\n')` {
+					nl++
+				}
+				return true
+			})
+			x.defBool("writeReturnsEarlyOnEmptyBuffer", skip)
+			x.defNat("writeNewlineCalls", uint64(nl))
+		}
+
+		// ---- the call site in ServeHTTP ----
+		site := map[string]string{}
+		for _, f := range x.files("proxy") {
+			ast.Inspect(f, func(n ast.Node) bool {
+				cl, ok := n.(*ast.CompositeLit)
+				if !ok || x.src(cl.Type) != "logger.Event" {
+					return true
+				}
+				for _, el := range cl.Elts {
+					if kv, ok := el.(*ast.KeyValueExpr); ok {
+						v := x.src(kv.Value)
+						if u, ok := kv.Value.(*ast.UnaryExpr); ok && u.Op == token.AND {
+							if inner, ok := u.X.(*ast.CompositeLit); ok {
+								v = "&" + x.src(inner.Type) + "{…}"
+							}
+						}
+						site[x.src(kv.Key)] = v
+					}
+				}
+				return true
+			})
+		}
+		if len(site) == 0 {
+			x.fail("no logger.Event literal found in package proxy")
+		}
+		var keys []string
+		for k := range site {
+			keys = append(keys, k)
+		}
+		sort.Strings(keys)
+		var pairs []string
+		for _, k := range keys {
+			pairs = append(pairs, fmt.Sprintf("(%s, %s)", leanStr(k), leanStr(site[k])))
+		}
+		x.defRaw("/-- the `logger.Event{…}` literal handed to `Logger.Log` in proxy/http_proxy.go: field ↦ expression -/\ndef eventSite : List (String × String) := [" + strings.Join(pairs, ", ") + "]")
+
+		// ---- proxy/http_headers.go ----
+		if e := x.valueSpec("proxy", "digit16"); e != nil {
+			s, ok := "", false
+			if c, isCall := e.(*ast.CallExpr); isCall && len(c.Args) == 1 && x.src(c.Fun) == "[]byte" {
+				s, ok = x.strLit(c.Args[0])
+			}
+			if !ok {
+				x.fail("proxy.digit16 is not []byte(\"…\")")
+			}
+			x.defStr("digit16", s)
+		}
+		if fd := x.funcDecl("proxy", "", "i32toa"); fd != nil {
+			x.defNat("i32toaBufLen", c20ArrayLen(x, fd, "buf"))
+		}
+		if fd := x.funcDecl("proxy", "", "uint16base16"); fd != nil {
+			// b[k] = digit16[n&MASK>>SHIFT] : (k, mask, shift)
+			var trip []string
+			ast.Inspect(fd, func(n ast.Node) bool {
+				as, ok := n.(*ast.AssignStmt)
+				if !ok || len(as.Lhs) != 1 || len(as.Rhs) != 1 {
+					return true
+				}
+				li, ok1 := as.Lhs[0].(*ast.IndexExpr)
+				ri, ok2 := as.Rhs[0].(*ast.IndexExpr)
+				if !ok1 || !ok2 || x.src(ri.X) != "digit16" {
+					return true
+				}
+				k, _ := strconv.ParseUint(x.src(li.Index), 0, 64)
+				mask, shift := uint64(0), uint64(0)
+				idx := ri.Index
+				if be, ok := idx.(*ast.BinaryExpr); ok && be.Op == token.SHR {
+					shift, _ = strconv.ParseUint(x.src(be.Y), 0, 64)
+					idx = be.X
+				}
+				if be, ok := idx.(*ast.BinaryExpr); ok && be.Op == token.AND && x.src(be.X) == "n" {
+					mask, _ = strconv.ParseUint(x.src(be.Y), 0, 64)
+				} else {
+					x.fail("uint16base16: unrecognised index expression %s", x.src(ri.Index))
+				}
+				trip = append(trip, fmt.Sprintf("(%d, %d, %d)", k, mask, shift))
+				return true
+			})
+			sort.Strings(trip)
+			x.defRaw("/-- uint16base16: (position in \"0x0000\", mask, shift) of each digit; Go parses `n&m>>s` as `(n&m)>>s` -/\ndef uint16Digits : List (Nat × Nat × Nat) := [" + strings.Join(trip, ", ") + "]")
+			if e := c20FirstStrArg(x, fd); e != "" {
+				x.defStr("uint16Template", e)
+			}
+		}
+
+		// ---- uuid/format.go ----
+		if e := x.valueSpec("uuid", "halfbyte2hexchar"); e != nil {
+			x.defRaw("def halfbyte2hexchar : List Nat := " + c20NatList(c20IntElems(x, e)))
+		}
+		if fd := x.funcDecl("uuid", "", "ToString"); fd != nil {
+			var idx []uint64
+			var dashes []uint64
+			ast.Inspect(fd, func(n ast.Node) bool {
+				switch v := n.(type) {
+				case *ast.RangeStmt:
+					idx = c20IntElems(x, v.X)
+				case *ast.AssignStmt:
+					if len(v.Lhs) == 1 && len(v.Rhs) == 1 {
+						if ie, ok := v.Lhs[0].(*ast.IndexExpr); ok && x.src(ie.X) == "b" && x.src(v.Rhs[0]) == "'-'" {
+							k, err := strconv.ParseUint(x.src(ie.Index), 0, 64)
+							if err != nil {
+								x.fail("uuid.ToString: dash position is not a literal: %s", x.src(v))
+							}
+							dashes = append(dashes, k)
+						}
+					}
+				}
+				return true
+			})
+			x.defRaw("def uuidIdx : List Nat := " + c20NatList(idx))
+			x.defRaw("def uuidDashes : List Nat := " + c20NatList(dashes))
+			x.defNat("uuidBufLen", c20ArrayLen(x, fd, "b"))
+		}
 		return nil
 	})
+}
+
+var c20DocLine = regexp.MustCompile(`^\s*(\$[A-Za-z0-9_.<>-]+)\s+-\s`)
+
+// c20DocFields: the field names listed in the package comment of logger/logger.go, in order.
+func c20DocFields(x *X) []string {
+	var out []string
+	for _, f := range x.files("logger") {
+		if f.Doc == nil {
+			continue
+		}
+		for _, l := range strings.Split(f.Doc.Text(), "\n") {
+			if m := c20DocLine.FindStringSubmatch(l); m != nil {
+				out = append(out, m[1])
+			}
+		}
+	}
+	if len(out) == 0 {
+		x.fail("no documented log fields found in the package comment of logger")
+	}
+	return out
+}
+
+func c20RootedAt(e ast.Expr, name string) bool {
+	for {
+		switch v := e.(type) {
+		case *ast.SelectorExpr:
+			e = v.X
+		case *ast.IndexExpr:
+			e = v.X
+		case *ast.StarExpr:
+			e = v.X
+		case *ast.ParenExpr:
+			e = v.X
+		case *ast.Ident:
+			return v.Name == name
+		default:
+			return false
+		}
+	}
+}
+
+func c20StrElems(x *X, e ast.Expr) []string {
+	cl, ok := e.(*ast.CompositeLit)
+	if !ok {
+		x.fail("not a composite literal: %s", x.src(e))
+		return nil
+	}
+	var out []string
+	for _, el := range cl.Elts {
+		s, ok := x.strLit(el)
+		if !ok {
+			x.fail("not a string literal: %s", x.src(el))
+		}
+		out = append(out, s)
+	}
+	return out
+}
+
+func c20IntElems(x *X, e ast.Expr) []uint64 {
+	cl, ok := e.(*ast.CompositeLit)
+	if !ok {
+		x.fail("not a composite literal: %s", x.src(e))
+		return nil
+	}
+	var out []uint64
+	for _, el := range cl.Elts {
+		v, err := strconv.ParseUint(x.src(el), 0, 64)
+		if err != nil {
+			x.fail("not an integer literal: %s", x.src(el))
+		}
+		out = append(out, v)
+	}
+	return out
+}
+
+func c20NatList(vs []uint64) string {
+	s := make([]string, len(vs))
+	for i, v := range vs {
+		s[i] = strconv.FormatUint(v, 10)
+	}
+	return "[" + strings.Join(s, ", ") + "]"
+}
+
+func c20Uniq(xs []string) []string {
+	var out []string
+	for i, s := range xs {
+		if i == 0 || xs[i-1] != s {
+			out = append(out, s)
+		}
+	}
+	return out
+}
+
+// c20ArrayLen: length N of the local `var name [N]byte` / `name := [N]byte{}` in fd.
+func c20ArrayLen(x *X, fd *ast.FuncDecl, name string) uint64 {
+	var n uint64
+	found := false
+	arr := func(t ast.Expr) {
+		if at, ok := t.(*ast.ArrayType); ok && at.Len != nil {
+			if v, err := strconv.ParseUint(x.src(at.Len), 0, 64); err == nil {
+				n, found = v, true
+			}
+		}
+	}
+	ast.Inspect(fd, func(nd ast.Node) bool {
+		switch v := nd.(type) {
+		case *ast.ValueSpec:
+			for _, id := range v.Names {
+				if id.Name == name && v.Type != nil {
+					arr(v.Type)
+				}
+			}
+		case *ast.AssignStmt:
+			if len(v.Lhs) == 1 && len(v.Rhs) == 1 && v.Tok == token.DEFINE {
+				if id, ok := v.Lhs[0].(*ast.Ident); ok && id.Name == name {
+					if cl, ok := v.Rhs[0].(*ast.CompositeLit); ok {
+						arr(cl.Type)
+					}
+				}
+			}
+		}
+		return true
+	})
+	if !found {
+		x.fail("%s: no fixed-size array %q", fd.Name.Name, name)
+	}
+	return n
+}
+
+// c20FirstStrArg: the string inside the first []byte("…") conversion in fd.
+func c20FirstStrArg(x *X, fd *ast.FuncDecl) string {
+	out := ""
+	ast.Inspect(fd, func(n ast.Node) bool {
+		if c, ok := n.(*ast.CallExpr); ok && out == "" && x.src(c.Fun) == "[]byte" && len(c.Args) == 1 {
+			if s, ok := x.strLit(c.Args[0]); ok {
+				out = s
+			}
+		}
+		return true
+	})
+	return out
 }
